@@ -9,7 +9,7 @@ from be_check import run_be, replay_be
 
 PID = 'C06'
 MANIFEST = dict(
-    text='Machine-checked (Coq) on the backend micro-step model, for every configuration (queue kind, capacity, limits, number of sinks) and every interleaving of frontend and backend micro-steps: a flush flag is set only by processing that flush request, after it left its transit buffer (order also read from the source each run), so the processed sequence of its thread is a prefix of what the thread committed and contains the request (everything committed earlier by the caller was dispatched to its sinks, C03); processing the request flushes every active sink after all writes so far; with timestamp ordering (premises of C05) no event pending in any queue or buffer is older than any processed event, hence every other thread\'s completed statement with a smaller timestamp is processed before the flag is set; a refused flush request stays pending and is never dropped nor counted. Model run against the real backend: flush_log() callers are real threads, resumed at top level and at yield points inside poll; monitor on the implementation: when flush_log() returns, every earlier accepted statement of the caller (and, with ordering, of other threads with smaller timestamps) has a write on each of its sinks followed by a flush of that sink. Partial: "returns as long as the backend keeps running" is a liveness claim checked only by the monitor (every flush in a drained run returns), equal timestamps across threads are excluded from the other-threads clause (the backend breaks ties by cache order), the driver runs sink_min_flush_interval 0, 1 ms and 5 ms on a virtual steady clock (the idle-stage flush is modelled with its interval; the flush request ignores it). UnboundedBlocking frontends (the default queue type; initial node 256/1024 bytes so that queues grow) run through the same driver and are judged by the property monitor on the implementation only: M-BE models one bounded queue per thread, the node switching of the unbounded queue is proved and tied in C02.',
+    text='Machine-checked (Coq) on the backend micro-step model, for every configuration (queue kind, capacity, limits, number of sinks) and every interleaving of frontend and backend micro-steps: a flush flag is set only by processing that flush request, after it left its transit buffer (order also read from the source each run), so the processed sequence of its thread is a prefix of what the thread committed and contains the request (everything committed earlier by the caller was dispatched to its sinks, C03); processing the request flushes every active sink after all writes so far; with timestamp ordering (premises of C05) no event pending in any queue or buffer is older than any processed event, hence every other thread\'s completed statement with a smaller timestamp is processed before the flag is set; a refused flush request stays pending and is never dropped nor counted. Model run against the real backend: flush_log() callers are real threads, resumed at top level and at yield points inside poll; monitor on the implementation: when flush_log() returns, every earlier accepted statement of the caller (and, with ordering, of other threads with smaller timestamps) has a write on each of its sinks followed by a flush of that sink. Partial: "returns as long as the backend keeps running" is a liveness claim checked only by the monitor (every flush in a drained run returns), equal timestamps across threads are excluded from the other-threads clause (the backend breaks ties by cache order), the driver runs sink_min_flush_interval 0, 1 ms and 5 ms on a virtual steady clock (the idle-stage flush is modelled with its interval; the flush request ignores it). Queue kinds: bounded blocking, bounded dropping and UnboundedBlocking frontends (the default type; initial node 256/1024 bytes so that queues grow). For unbounded frontends the thread record of M-BE carries the node structure of the queue (the sequential layer of M-UQ, updated at every queue call; it decides the backend\'s per-call read limit = capacity of the consumer\'s current node) next to a byte queue too large to fill; the theorems quantify over every initial node structure (premise fresh_thr) and every capacity, and the extracted model is compared with the real backend on growing queues as well.',
     design='5 C06', technique='Coq invariant proofs (flag => processed prefix; ordering invariant via refinement) + source-fact translator + deterministic-driver differential correspondence')
 
 
